@@ -75,6 +75,9 @@ Case(P) == [key |-> P.key, fam |-> P.fam, prog |-> P,
 (* ======================================================================== *)
 EdgeCode(n, E) == SumSeq([k \in 1..(n * n) |->
                     IF <<((k - 1) \div n) + 1, ((k - 1) % n) + 1>> \in E THEN Pow2(k - 1) ELSE 0])
+\* a printable name for an edge set (EdgeCode overflows TLC's integers beyond n = 5)
+EdgeStr(n, E) == ConcatStr([k \in 1..(n * n) |-> IF <<((k - 1) \div n) + 1, ((k - 1) % n) + 1>> \in E
+                                                  THEN ToString(((k - 1) \div n) + 1) \o ToString(((k - 1) % n) + 1) \o "." ELSE ""])
 GProg(n, E, kd, wrap) ==
   LET fn     == SeqOfSet({i \in 1..n : kd[i] = "f"})
       succ(i)== SeqOfSet({j \in 1..n : <<i, j>> \in E})
@@ -82,7 +85,7 @@ GProg(n, E, kd, wrap) ==
       pars   == SeqOfSet({i \in 1..n : kd[i] = "p"})
       params == [k \in DOMAIN pars |-> Par("a" \o ToString(pars[k]), TN(pars[k]))]
       all    == [k \in DOMAIN fn |-> ItL(k)]
-      key    == "G/n" \o ToString(n) \o "/e" \o ToString(EdgeCode(n, E)) \o "/" \o ConcatStr(kd) \o "/" \o wrap
+      key    == "G/n" \o ToString(n) \o "/e" \o (IF n <= 5 THEN ToString(EdgeCode(n, E)) ELSE EdgeStr(n, E)) \o "/" \o ConcatStr(kd) \o "/" \o wrap
   IN Prog(key, "G", [i \in 1..n |-> Tok(TN(i))], leaves,
           IF wrap = "set" THEN <<SetD("SetA", "a", all)>> ELSE <<>>,
           <<Inj("Inject", params, TN(1), FALSE, FALSE, IF wrap = "set" THEN <<ItS(1)>> ELSE all)>>)
@@ -104,9 +107,6 @@ FamilyG(p, n, kinds, wraps) ==
 (* ======================================================================== *)
 FlCl(c) == c \in {"c", "b"}
 FlEr(c) == c \in {"e", "b"}
-\* a printable name for an edge set (EdgeCode overflows TLC's integers beyond n = 5)
-EdgeStr(n, E) == ConcatStr([k \in 1..(n * n) |-> IF <<((k - 1) \div n) + 1, ((k - 1) % n) + 1>> \in E
-                                                  THEN ToString(((k - 1) \div n) + 1) \o ToString(((k - 1) % n) + 1) \o "." ELSE ""])
 RProg(n, E, fl, injd) ==
   LET succ(i) == SeqOfSet({j \in 1..n : <<i, j>> \in E})
       leaves  == [i \in 1..n |-> Func(PN(i), [x \in DOMAIN succ(i) |-> TN(succ(i)[x])], TN(i), FlCl(fl[i]), FlEr(fl[i]))]
@@ -515,6 +515,9 @@ GSplitProg(n, E, part) ==
   IN Prog(key, "G", [i \in 1..n |-> Tok(TN(i))], leaves,
           <<SetD("SetA", "a", Items(inA)), SetD("SetB", "a", Items(inB)), SetD("SetAll", "a", <<ItS(1), ItS(2)>>)>>,
           <<Inj("Inject", <<>>, TN(1), FALSE, FALSE, <<ItS(3)>>)>>)
+\* random digraphs on n providers (n = 5, 6: beyond exhaustive reach): k random edge sets of about m edges (TLC -seed decides)
+FamilyGRand(p, n, k, m) ==
+  \E E \in RandomSetOfSubsets(k, m, (1..n) \X (1..n)) : p = GProg(n, E, [i \in 1..n |-> "f"], "set")
 \* the same sets, but no injector uses them: only `wire check` / `wire show` look at them
 GSplitUnused(n, E, part) ==
   LET q == GSplitProg(n, E, part)
@@ -634,6 +637,10 @@ XProg(v) ==
     [] v = "value-does-not-satisfy-pointer" ->
          mk(<<XF("P3", <<>>, "T3"), XF("P9", <<"*T3">>, "T9")>>, <<>>,
             <<XInj("Inject", <<>>, "T9", <<ItL(1), ItL(2)>>, 1)>>)
+    [] v = "multi-name-var-sets-missing" ->     \* the second name of a multi-name var spec lacks what the first provides
+         mk(<<XF("P2", <<>>, "T2"), XF("P3", <<>>, "T3"), XF("P1", <<"T2", "T3">>, "T1")>>,
+            <<[SetD("SetA", "a", <<ItL(1)>>) EXCEPT !.grp = "g"], [SetD("SetB", "a", <<ItL(2)>>) EXCEPT !.grp = "g"]>>,
+            <<XInj("Inject", <<>>, "T1", <<ItS(2), ItL(3)>>, 1)>>)
     [] v = "same-set-twice-direct" ->          \* one set listed twice in the same call
          mk(<<XF("P2", <<>>, "T2"), XF("P1", <<"T2">>, "T1")>>, <<SetD("SetA", "a", <<ItL(1)>>)>>,
             <<XInj("Inject", <<>>, "T1", <<ItS(1), ItL(2), ItS(1)>>, 1)>>)
@@ -646,7 +653,7 @@ XVariants == {"star-foreign-tag-missing", "star-foreign-tag-ok", "two-files-firs
               "foreign-struct-star", "foreign-struct-unexported-name", "foreign-struct-exported-name", "variadic-err-provider",
               "same-named-sets-two-packages", "two-unnamed-values", "same-name-packages", "two-fieldsof-items", "bind-after-concrete",
               "iface-result-bound-to-value-struct", "alias-satisfies", "defined-type-does-not-satisfy", "pointer-does-not-satisfy-value",
-              "value-does-not-satisfy-pointer"}
+              "value-does-not-satisfy-pointer", "multi-name-var-sets-missing"}
 FamilyX(p, vs) == \E v \in vs : p = XProg(v)
 
 (* ======================================================================== *)
